@@ -580,8 +580,16 @@ func newVsource() node.Source {
 	inc := s.incarnation
 	s.logf(fmt.Sprintf("factory%d", inc))
 	s.mu.Unlock()
-	return &vsource{script: s, inc: inc, done: make(chan struct{}, 1)}
+	v := &vsource{script: s, inc: inc, done: make(chan struct{}, 1)}
+	if inc%2 == 0 {
+		// a factory may hand out replacements of another Go type (a fallback implementation): every second incarnation is one
+		return &vsourceAlt{v}
+	}
+	return v
 }
+
+// vsourceAlt: the same source behind another concrete type
+type vsourceAlt struct{ *vsource }
 
 func (v *vsource) Init(id string, ctx fbcontext.FBContext) {
 	v.ContextAware.Init(id, ctx)
